@@ -412,6 +412,8 @@ def _check_case(ctx, case):
             if n[0] == "real":
                 labels.add("real_literal")
         labels.add("der_lhs" if q["lhs"][0] == "der" else "alg_lhs")
+        if q.get("form") in (0, 1, 2):
+            labels.add("equation_form:" + {0: "zero_left", 1: "zero_right", 2: "sides_swapped"}[q["form"]])
         labels.add("parens:redundant" if q.get("bits") else "parens:minimal")
         if not q.get("spaces", True):
             labels.add("no_spaces")
@@ -568,6 +570,15 @@ def case_strategy(draw, ctx=None):
             d = ["der", ["var", s]]
             rhs = ["bin", op, rhs, d] if draw(st.booleans()) else ["bin", op, d, rhs]
         q = {"lhs": ["der", ["var", v]] if f else ["var", v], "rhs": rhs}
+        form = draw(st.integers(0, 7))
+        zero = draw(st.sampled_from([["int", 0], ["real", "0.0"]]))
+        if form == 0:
+            q = {"lhs": zero, "rhs": ["bin", "-", q["lhs"], q["rhs"]]}  # residual form, zero on the left
+        elif form == 1:
+            q = {"lhs": ["bin", "-", q["lhs"], q["rhs"]], "rhs": zero}  # residual form, zero on the right
+        elif form == 2:
+            q = {"lhs": q["rhs"], "rhs": q["lhs"]}  # sides swapped
+        q["form"] = form
         if draw(st.integers(0, 2)) == 0:
             q["bits"] = draw(st.lists(st.integers(0, 3), min_size=4, max_size=16))
         else:
